@@ -14,6 +14,7 @@ fn main() {
     let (sub, args) = hxlib::util::Args::parse();
     let code = match sub.as_str() {
         "c21" => run(&args),
+        "probe" => probe(),
         _ => {
             eprintln!("unknown subcommand {sub}");
             2
@@ -34,17 +35,34 @@ fn run(args: &hxlib::util::Args) -> i32 {
     tm::run_ops(args, &mut sink, &mut rng.fork(), &mut budget);
     budget.left = if th { 4 } else { 0 };
     mask::run(args, &mut sink, &mut rng.fork(), &mut budget);
-    budget.left = if th { 3 } else { 0 };
+    budget.left = if th { 4 } else { 0 };
     tm::run_setops(args, &mut sink, &mut rng.fork(), &mut budget);
     ser::run(args, &mut sink, &mut rng.fork());
     budget.left = if th { 3 } else { 0 };
     eval::run(args, &mut sink, &mut rng.fork(), &mut budget);
     sink.notes.push(format!(
         "exhaustive parts: RowIdTreeMap |,&,-,union_all over all pairs of maps on 2 fragments x 3 offsets ({}); RowIdMask unary ops over all (allow,block) on 2x{} ; RowIdMask &,| over all ordered pairs on 1x2 and (sampled in quick) 2x1; the NOT/AND/OR table over 3x3 kinds x 9x9 maps ({}); cases whose real execution needs RoaringBitmap::full() are limited to a budget (counted as *:skipped-needs-full-bitmap); the rest random with boundary-heavy pools",
-        if args.thorough() { "all 10^4" } else { "a seed-dependent half" },
+        if args.thorough() { "all 10^4" } else { "a seed-dependent eighth" },
         if args.thorough() { 3 } else { 2 },
         if args.thorough() { "all" } else { "a seed-dependent third" }
     ));
     sink.finish();
+    0
+}
+
+/// Ad-hoc reproduction of the one representation-level oddity found while proving the canonical-form
+/// lemmas (not part of the check): `{f: Full} - {f: Partial(all 2^32 offsets)}` keeps an entry for f
+/// holding an empty bitmap, so is_empty() is false for an empty set.  Needs ~1 GiB and some seconds.
+fn probe() -> i32 {
+    use lance_core::utils::mask::RowIdTreeMap;
+    let mut a = RowIdTreeMap::new();
+    a.insert_fragment(7);
+    let mut b = RowIdTreeMap::new();
+    let c = b.insert_range((7u64 << 32)..(8u64 << 32));
+    println!("insert_range(7<<32 .. 8<<32) count = {c}; b.len() = {:?}", b.len());
+    let d = a.clone() - b.clone();
+    println!("(Full - Partial(all)): is_empty() = {}, len() = {:?}, contains(7<<32) = {}, == new() : {}", d.is_empty(), d.len(), d.contains(7u64 << 32), d == RowIdTreeMap::new());
+    let e = b.clone() - a.clone();
+    println!("(Partial(all) - Full): is_empty() = {}, len() = {:?}", e.is_empty(), e.len());
     0
 }
